@@ -51,7 +51,7 @@ def judge(case, idx, r):
 def main(tier):
     c = vcommon.Check("C14", tier, "exploration")
     bindir = vcommon.build_plain(need_boots=True)
-    tc = core.Toolchain(bindir)
+    tc = core.Toolchain(bindir, vcommon.build_fast(need_boots=True))
     scratch = vcommon.scratch_dir("c14")
     try:
         specs = fam_trap.specs(quick=(tier == "quick"))
